@@ -40,7 +40,7 @@ def check(F, rep, tier):
             else:
                 rep.bad("R11.1", "local-list-order", "local segment lists are compared by %s" % callee, f.where())
     except cmpterm.Unrecognised as e:
-        rep.bad("R11.1", "unrecognised-shape:PEP440::cmp", str(e), f.where())
+        rep.undecided("R11.1", "unrecognised-shape:PEP440::cmp", str(e), f.where())
     # ---- R11.2 label order a < b < rc ---------------------------------------------------------------
     g = ord_impl(F, LABEL)
     if rep.anchor("R11.2", "<PreReleaseLabel as Ord>::cmp", g):
@@ -57,7 +57,7 @@ def check(F, rep, tier):
             if pr: rep.bad("R11.2", "label-not-total-order", "the 9-entry label table is not a strict total order: %s" % pr[:3], g.where())
             else: rep.ok("R11.2", "label table is antisymmetric, reflexive and transitive (9 entries)", nontrivial_key="total")
         except cmpterm.Unrecognised as e:
-            rep.bad("R11.2", "unrecognised-shape:PreReleaseLabel::cmp", str(e), g.where())
+            rep.undecided("R11.2", "unrecognised-shape:PreReleaseLabel::cmp", str(e), g.where())
     # ---- R11.3 local segment order ---------------------------------------------------------------------
     h = ord_impl(F, LOCAL)
     if rep.anchor("R11.3", "<LocalSegment as Ord>::cmp", h):
@@ -73,7 +73,7 @@ def check(F, rep, tier):
                 return "Less" if s == "UInt" else "Greater"
             evals += check_stages(rep, "R11.3", cs, [("segment", {"self": ("Str", "UInt"), "other": ("Str", "UInt"), ku: ORD, ks: ORD}, spec)], "LocalSegment::cmp") or 0
         except cmpterm.Unrecognised as e:
-            rep.bad("R11.3", "unrecognised-shape:LocalSegment::cmp", str(e), h.where())
+            rep.undecided("R11.3", "unrecognised-shape:LocalSegment::cmp", str(e), h.where())
     eq_via_cmp(F, rep, "R11.4", PEP, f)
     # derived PartialEq on LocalSegment is structural; check that PEP440 equality does not use it for `local` outside cmp
     # ---- R11.5 spelling funnel: every spelling must reach the comparator at all - the parser adds no accept/reject
@@ -94,7 +94,7 @@ def release_rule(F, rep, c, relkey):
     try:
         sl = cmpterm.slice_lex(F, h)
     except cmpterm.Unrecognised as e:
-        rep.bad("R11.1", "unrecognised-shape:" + h.path.rsplit("::", 1)[-1], "release comparison: %s" % e, h.where()); return
+        rep.undecided("R11.1", "unrecognised-shape:" + h.path.rsplit("::", 1)[-1], "release comparison: %s" % e, h.where()); return
     probs = []
     b = sl["bound"]
     if not (b and b[0] == "padded"): probs.append("elements are not read as get(i).copied().unwrap_or(pad) on both sides")
